@@ -17,7 +17,7 @@ pub const META: PropMeta = PropMeta {
     id: "C37",
     quick_runs: 100_000,
     thorough_runs: 10_000_000,
-    rule: "end to end: six small programs whose outcome (sequence of per-tick records) identifies the schedule — batch of a total stream, of an unordered stream, of a keyed stream; batch+snapshot in one tick; two dependent ticks ready at once (slice B snapshots a count of slice A's output); a top-level assume_ordering observation feeding a tick. CompiledSim::exhaustive is run once per program and its outcome set S collected; each run then draws one legal outcome from an independent reference model of the decision space (any prefix / any subset / any snapshot version >= the last / any order of ready ticks and observations; every tick releases something new) and tests membership in S. Distinct = distinct (program, sampled outcome); non-trivial = the sampled outcome has more than one tick/observation.",
+    rule: "end to end: seven small programs whose outcome (sequence of per-tick records) identifies the schedule — batch of a total stream, of an unordered stream, of a keyed stream; batch+snapshot in one tick; two dependent ticks ready at once (slice B snapshots a count of slice A's output); a top-level assume_ordering observation feeding a tick; the same with the tick's output cycled back into the observation's pool (the only place where tick-versus-observation order is observable). CompiledSim::exhaustive is run once per program and its outcome set S collected; each run then draws one legal outcome from an independent reference model of the decision space (any prefix / any subset / any snapshot version >= the last / any order of ready ticks and observations; every tick releases something new) and tests membership in S. Distinct = distinct (program, sampled outcome); non-trivial = the sampled outcome has more than one tick/observation.",
     time_unit: "reference ticks/observations sampled",
     real: &[
         "hydro_lang::sim::compiled::CompiledSim::exhaustive (bolero exhaustive engine + scheduler + hooks in the compiled dylib)",
@@ -45,10 +45,11 @@ enum Prog {
     BatchSnap,
     TwoTicks,
     ObsTick,
+    ObsTickCycle,
 }
 #[cfg(stageleft_runtime)]
 impl Prog {
-    const ALL: [Prog; 6] = [Prog::Total, Prog::NoOrd, Prog::Keyed, Prog::BatchSnap, Prog::TwoTicks, Prog::ObsTick];
+    const ALL: [Prog; 7] = [Prog::Total, Prog::NoOrd, Prog::Keyed, Prog::BatchSnap, Prog::TwoTicks, Prog::ObsTick, Prog::ObsTickCycle];
     fn name(self) -> &'static str {
         match self {
             Prog::Total => "x_total",
@@ -57,6 +58,7 @@ impl Prog {
             Prog::BatchSnap => "x_batch_snapshot",
             Prog::TwoTicks => "x_two_ticks_ready",
             Prog::ObsTick => "x_observation_then_tick",
+            Prog::ObsTickCycle => "x_observation_tick_cycle",
         }
     }
 }
@@ -176,6 +178,31 @@ fn enumerate(p: Prog) -> Enumerated {
                 tx.send_many_unordered([1, 2, 3]);
                 let recs: Vec<Vec<i32>> = rx.collect().await;
                 sref.lock().unwrap().insert(recs.into_iter().map(|r| r.into_iter().map(|x| x as i64).collect()).collect());
+            })
+        }
+        Prog::ObsTickCycle => {
+            // the pattern of `sim_top_level_assume_ordering_cycle_back_tick`: what a tick emits is
+            // cycled back (over two network hops) into the unordered pool the observation orders,
+            // so whether a tick ran *while the observation was still ready* shows in the output
+            let node2 = flow.process::<()>();
+            let (tx, input): (Tx<i32, NoOrder>, _) = node.sim_input();
+            let (complete_cycle_back, cycle_back) = node.forward_ref::<Stream<_, _, _, NoOrder>>();
+            let ordered = input.merge_unordered(cycle_back).assume_ordering::<TotalOrder>(nondet!(/** c37: observation */));
+            complete_cycle_back.complete(
+                ordered
+                    .clone()
+                    .batch(&node.tick(), nondet!(/** c37: tick */))
+                    .all_ticks()
+                    .map(q!(|v| v + 1))
+                    .filter(q!(|v| v % 2 == 1))
+                    .send(&node2, TCP.fail_stop().bincode())
+                    .send(&node, TCP.fail_stop().bincode()),
+            );
+            let rx: Rx<i32> = ordered.sim_output();
+            flow.sim().exhaustive(async || {
+                tx.send_many_unordered([0, 2]);
+                let out: Vec<i32> = rx.collect().await;
+                sref.lock().unwrap().insert(vec![out.into_iter().map(|x| x as i64).collect()]);
             })
         }
     };
@@ -298,6 +325,20 @@ fn reference(p: Prog, run_seed: u64) -> Outcome {
             }
             out
         }
+        Prog::ObsTickCycle => {
+            // pool {0, 2}; releasing an even x makes x + 1 available (after a tick and two hops):
+            // every linear extension of {0 < 1, 2 < 3} is a legal output order
+            let mut avail: Vec<i64> = vec![0, 2];
+            let mut out = vec![];
+            while !avail.is_empty() {
+                let x = avail.remove(below(&mut r, avail.len() as u64) as usize);
+                out.push(x);
+                if x % 2 == 0 {
+                    avail.push(x + 1);
+                }
+            }
+            vec![out]
+        }
         Prog::ObsTick => {
             // the observation releases the unordered items one at a time in any order; ticks take
             // any non-empty prefix of what was released so far; any interleaving
@@ -345,10 +386,10 @@ fn e2e_c37() {
                             format!("legal outcome {o:?} is not among the {} outcomes that CompiledSim::exhaustive reached in {} executions", e.set.len(), e.executions),
                         );
                     }
-                    if o.len() > 1 {
+                    if o.len() > 1 || o.iter().any(|r| r.len() > 2) {
                         out.probe("reference_multi_tick_outcome");
                     }
-                    out.nontrivial = o.len() > 1;
+                    out.nontrivial = o.len() > 1 || o.iter().any(|r| r.len() > 2);
                     out.sim_time = o.len() as u64;
                     out.sched_hash = hash_str(FNV0, &format!("{o:?}"));
                     out.log_hash = out.sched_hash ^ member as u64 ^ (e.set.len() as u64) << 8 ^ (e.executions as u64) << 24;
